@@ -22,6 +22,7 @@ EXPLANATION = (
     "set_value_at_pos builds one full-slice indexer, replaces for each queried dimension the entry at that dimension's "
     "own axis number with that dimension's own coordinate index, and stores once. The values and count np.arange "
     "produces (and the tolerance of the trim) are numerical and not decided."
+    'R16.1 evaluates the trailing-element test on placements of the last coordinate relative to stop (0 to 0.1 step below: trimmed; 0.9 to 1.1 step below: kept). '
 )
 ASSUMPTIONS = ["pandas Index.get_slice_bound(v, 'right') is the number of coordinates <= v on a sorted index (trusted)",
                "np.arange(start, stop, step) yields start + i*step (trusted; its element count under rounding is not decided)"]
